@@ -13,7 +13,9 @@ RULE = ("seeded streams: segments / lines / polylines (0-7 vertices, open and cl
         "of two against generic planes (rational unit normals normalised in binary64; decisions compared only when "
         "every endpoint is farther than 1e-6*scale from the plane) and exact planes (axis or 22-bit dyadic normals, "
         "endpoints exactly on the plane, segments inside / parallel to the plane, axis-parallel segments with equal "
-        "coordinates); pairwise intersect_segment_with_plane with arbitrary grid normals; non-trivial = the calls "
+        "coordinates); extreme scales 2^-30..2^30 also in the quick tier; tiny features at unit-size positions (segments, "
+        "polyline edges of length ~1e-9*scale across / beside / inside axis-normal planes, direction vectors ~1e-9*scale); "
+        "pairwise intersect_segment_with_plane with arbitrary grid normals; non-trivial = the calls "
         "returned; distinct by hash of inputs")
 TRUSTED = ["Coq 8.16.1 kernel, vm_compute for the correspondence evaluation",
            "axioms (Print Assumptions): ClassicalDedekindReals.sig_forall_dec, sig_not_dec, "
